@@ -767,9 +767,10 @@ fn run_edge<T: TargetKind>(c: &mut Ctx, fam: &str, idx: u64, rng: &mut Rng, obs:
 }
 
 pub fn run(c: &mut Ctx) {
+    c.families(2);
     let mut obs = Obs { pointers: 0, failed_pushes: 0, ok_pushes: 0, max_len: 0, case_changed_by_compression: 0 };
     let fam = "edge";
-    let total = c.total(12_000, 240_000);
+    let total = c.total(12_000, 1_500_000);
     for idx in c.cases(fam, total) {
         if c.out_of_time() {
             break;
@@ -802,7 +803,7 @@ pub fn run(c: &mut Ctx) {
         }
     }
     let fam = "seq";
-    let total = c.total(300_000, 6_000_000);
+    let total = c.total(300_000, 40_000_000);
     for idx in c.cases(fam, total) {
         if c.out_of_time() {
             break;
